@@ -9,7 +9,8 @@ EXPLANATION = ("static analysis: on every accepting path of add_interaction (all
                "that were not yet present (so keys = inhabited instants and value/divisor = number of interactions); "
                "the readers are interpreted on a concrete-symbolic index whose ids were created out of order (ascending "
                "ids; counter/divisor; 0 and no key creation for an uninhabited instant; map form); avg_number_of_nodes "
-               "is interpreted on a 4-node symbolic graph with five snapshot ids over all 64 presence valuations and "
+               "is interpreted on 4-node symbolic graphs (a path and a star for the undirected class, a reciprocal pair with a back "
+               "edge for the directed one) with five snapshot ids over all 64 / 512 presence valuations and "
                "must equal the mean of |V_t|; observers are shown pure by the taint analysis")
 
 
